@@ -43,7 +43,7 @@ inductive PrimVal
   | u8 (n : Nat) | u16 (n : Nat) | u32 (n : Nat) | u64 (n : Nat)
   | i8 (n : Int) | i16 (n : Int) | i32 (n : Int) | i64 (n : Int)
   | f32 (bits : Nat) (text : Name) | f64 (bits : Nat) (text : Name)
-  | bool (b : Bool) | char (c : Nat) | ptr | none
+  | bool (b : Bool) | char (c : Char) | ptr | none
   deriving DecidableEq, Repr, Inhabited
 
 def PrimVal.ty : PrimVal → PrimTy
